@@ -17,6 +17,54 @@ SHAPES = {
 }
 
 
+# motifs whose edges carry DIFFERENT topology names (multi-orbit motifs of the custom generator): (size, [(a, b, name)...])
+MIXED = {
+    "sq": (4, [(0, 1, "sq-a"), (1, 2, "sq-b"), (2, 3, "sq-a"), (0, 3, "sq-b")]),
+    "kite": (4, [(0, 1, "kite-t"), (0, 2, "kite-t"), (1, 2, "kite-t"), (2, 3, "kite-p")]),
+}
+
+
+def gen_mixed_network(rng, nmax):
+    """clean network containing motifs with several edge topologies, so that a vertex's corner in one motif holds edges of
+    two topologies (the per-topology pairing of the two corners of a proposal is then exercised)"""
+    kinds = rng.sample(list(MIXED), rng.randint(1, 2))
+    plain = rng.sample(["2-clique", "3-clique"], rng.randint(0, 2))
+    names = []
+    for k in kinds:
+        for _, _, nm in MIXED[k][1]:
+            if nm not in names:
+                names.append(nm)
+    names += plain
+    rng.shuffle(names)
+    N = rng.randint(9, nmax)
+    edges, motifs, mid = {}, [], 0
+    jd = [[0] * len(names) for _ in range(N)]
+    todo = [(k, MIXED[k][0], MIXED[k][1]) for k in kinds] + [(p, SHAPES[p][0], [(a, b, p) for a, b in SHAPES[p][1]]) for p in plain]
+    for kind, size, pat in todo:
+        want, placed = rng.randint(2, 6), 0
+        for _ in range(want * 15):
+            if placed >= want:
+                break
+            vs = rng.sample(range(N), size)
+            es = [frozenset((vs[a], vs[b])) for a, b, _ in pat]
+            if any(e in edges for e in es):
+                continue
+            for e, (_, _, nm) in zip(es, pat):
+                edges[e] = (nm, mid)
+            for i, v in enumerate(vs):
+                for nm in {nm for a, b, nm in pat if i in (a, b)}:
+                    jd[v][names.index(nm)] += 1
+            motifs.append({"id": mid, "name": kind, "verts": vs})
+            mid += 1
+            placed += 1
+    rows = []
+    for e, (nm, m) in edges.items():
+        a, b = sorted(e)
+        rows.append([a, b, nm, m] if rng.random() < 0.5 else [b, a, nm, m])
+    rng.shuffle(rows)
+    return {"jd": [[v, jd[v]] for v in range(N)], "edges": rows, "names": names, "motifs": motifs}
+
+
 def gen_clean_network(rng, nmax, min_topologies=1, nmin=8, want_range=(2, 7)):
     names = rng.sample(list(SHAPES), rng.randint(min_topologies, 3))
     N = rng.randint(nmin, nmax)
@@ -173,7 +221,10 @@ class MCMCProp(Prop):
     min_topologies = 1
 
     def gen(self, rng, i, tier):
-        net = gen_clean_network(rng, 24 if tier == "quick" else 60, self.min_topologies if rng.random() < 0.8 else 1)
+        if i % 4 == 3:
+            net = gen_mixed_network(rng, 24 if tier == "quick" else 50)
+        else:
+            net = gen_clean_network(rng, 24 if tier == "quick" else 60, self.min_topologies if rng.random() < 0.8 else 1)
         mode = rng.choice(self.modes)
         c = dict(net)
         c["target"] = gen_target(rng, net, mode)
